@@ -13,13 +13,19 @@ import gen
 import hier
 import impl
 
-RULE = ("random hierarchies (depth 1-4, thorough 6) into which empty Model() placements and solvers containing only "
+RULE = ("random hierarchies (depth 1-4, thorough 6) into which pinless models (Model(), a matrix without pins, a solved model with no exposed pin) and solvers containing only "
         "dead content (nested up to 3 deep) are inserted at random positions of random solvers, including hierarchies "
         "that are dead altogether; distinct = distinct tree shape (live/dead skeleton); non-trivial = at least one dead "
         "and one live placement")
 TRUSTED = ["harness/hier.py (description -> real objects, flattening)"]
 ASSUMPTIONS = ["bare Structure objects with neither model nor solver are outside the domain"]
 EXPLANATION = "C19_removes_exactly by mutual structural induction: prune = clean, flag = dead"
+
+
+def empty_leaf(rng):
+    """a model without pins: Model(), a model given a matrix but no pins, or the solved model of a
+    sub-circuit none of whose pins was exposed"""
+    return hier.Leaf([], [], [], empty=rng.choice(["plain", "plain", "matrix", "solved"]))
 
 
 def dead_solver(rng, depth, pool=None):
@@ -31,7 +37,7 @@ def dead_solver(rng, depth, pool=None):
         elif depth > 0 and rng.random() < 0.4:
             n.children.append((dead_solver(rng, depth - 1, pool), {}))
         else:
-            n.children.append((hier.Leaf([], [], [], empty=True), {}))
+            n.children.append((empty_leaf(rng), {}))
     return n
 
 
@@ -39,7 +45,7 @@ def some_dead(rng, pool):
     """a dead placement: an empty model or a dead solver; 40% of the time an object that is already placed elsewhere"""
     if pool and rng.random() < 0.4:
         return rng.choice(pool)
-    obj = dead_solver(rng, 2, pool) if rng.random() < 0.5 else hier.Leaf([], [], [], empty=True)
+    obj = dead_solver(rng, 2, pool) if rng.random() < 0.5 else empty_leaf(rng)
     pool.append(obj)
     return obj
 
